@@ -3,6 +3,8 @@ package main
 import (
 	"fmt"
 	"math/rand"
+	"net/http"
+	"net/http/httptest"
 	"os"
 	"path/filepath"
 	"regexp"
@@ -285,6 +287,71 @@ func sharedListsCrossImportCases(col *Collector) {
 	}
 }
 
+// the same configuration fetched over HTTP in the three formats - plain URL, with a query string, with a fragment,
+// as the main configuration and as an import: the same definitions load
+func urlFormatsCases(col *Collector) {
+	cfg := map[string]interface{}{
+		"tasks":     map[string]interface{}{"alpha": map[string]interface{}{"command": []interface{}{"echo alpha"}}, "beta": map[string]interface{}{"command": []interface{}{"echo beta"}}},
+		"pipelines": map[string]interface{}{"pp": []interface{}{map[string]interface{}{"task": "alpha"}}},
+	}
+	docs := map[string]string{}
+	for _, f := range formats {
+		docs[f], _ = serialise(cfg, f)
+	}
+	srv := httptest.NewServer(http.HandlerFunc(func(w http.ResponseWriter, r *http.Request) {
+		for _, f := range formats {
+			if r.URL.Path == "/cfg/tasks."+f {
+				if f == "json" {
+					w.Header().Set("Content-Type", "application/json")
+				} else {
+					w.Header().Set("Content-Type", "text/plain; charset=utf-8")
+				}
+				w.Write([]byte(docs[f]))
+				return
+			}
+		}
+		http.NotFound(w, r)
+	}))
+	defer srv.Close()
+	for _, suffix := range []string{"", "?ref=main", "?a=1&b=x.y", "#top"} {
+		for _, asImport := range []bool{false, true} {
+			ref := ""
+			for _, f := range formats {
+				dir := newScratchDir("c16u")
+				u := srv.URL + "/cfg/tasks." + f + suffix
+				target := u
+				if asImport {
+					os.WriteFile(filepath.Join(dir, "main.yaml"), []byte(fmt.Sprintf("import: [%q]\ntasks:\n  local: {command: [\"true\"]}\n", u)), 0644)
+					target = filepath.Join(dir, "main.yaml")
+				}
+				r := runTaskctl(dir, nil, 15*time.Second, "-c", target, "list", "tasks")
+				names := strings.Fields(r.stdout)
+				sort.Strings(names)
+				obs := fmt.Sprintf("exit=%d tasks=%s", r.exit, strings.Join(names, ","))
+				if r.exit != 0 {
+					obs += " " + lastLines(r.stderr, 1)
+				}
+				cs := Case{Tags: []string{"url-config", "suffix=" + suffix}, NonTrivial: true, Impl: clipStr(obs, 200),
+					Replay: fmt.Sprintf("configuration served over HTTP as tasks.%s%s (as an import: %v)", f, suffix, asImport)}
+				if ref == "" {
+					ref = obs
+					want := "exit=0 tasks=alpha,beta"
+					if asImport {
+						want = "exit=0 tasks=alpha,beta,local"
+					}
+					if obs != want {
+						cs.Fail, cs.Sig = "the YAML document gives ["+clipStr(obs, 200)+"], expected "+want, "c16-cross-import"
+					}
+				} else if obs != ref {
+					cs.Fail, cs.Sig = fmt.Sprintf("the %s document gives [%s], the YAML document gives [%s]", f, clipStr(obs, 200), clipStr(ref, 200)), "c16-cross-import"
+				}
+				col.Add(cs)
+				os.RemoveAll(dir)
+			}
+		}
+	}
+}
+
 // the root file lives in the directory it imports (`import: ["."]`) next to YAML files sorted before and after it:
 // whatever its format, the same definitions load
 func rootInImportedDirCases(col *Collector) {
@@ -465,6 +532,7 @@ func runC16(col *Collector, tier string, seed int64) {
 	sharedListsCrossImportCases(col)
 	unifyModelCases(col, rng, map[bool]int{false: 60, true: 600}[tier == "thorough"])
 	rootInImportedDirCases(col)
+	urlFormatsCases(col)
 	for _, fa := range formats {
 		for _, fb := range formats {
 			crossImportCase(col, rng, fa, fb, false, false, false)
